@@ -20,6 +20,7 @@ def runAd (m : Dec α) (ad : String) (arg : Nat) (s : IterSt) : Option (List (Sc
   | "skip" => some (Script.skip m fuel arg s)
   | "step" => if arg == 0 then none else some (Script.step m arg fuel 0 s)
   | "take" => some (Script.take m fuel arg s)
+  | "fuse" => some (Script.fuse m fuel arg s)
   | "last" => some (Script.last m fuel none s)
   | "count" => some (Script.count m fuel 0 s)
   | _ => none
